@@ -53,6 +53,12 @@ OrdOK(r) ==
           /\ r.max = (IF r.cmp = 1 THEN r.a ELSE r.b)
           /\ r.min = (IF r.cmp = 1 THEN r.b ELSE r.a)
 
+\* an element type whose Ord is finer than its PartialOrd (a total-order float key): no definition over codes applies -
+\* each method of the array agrees with the same method of its slice
+SliceAgreeOK(r) ==
+    /\ r.cmp = r.scmp /\ r.pcmp = r.spcmp /\ r.eq = r.seq /\ r.lt = r.slt /\ r.ge = r.sge
+    /\ r.max = r.smax /\ r.min = r.smin
+
 \* Debug output under any flags equals the slice's (the slice is the oracle; TLA+ carries the equality)
 DbgOK(r) == r.arr = r.slice
 =============================================================================
